@@ -211,28 +211,28 @@ def scanItemDecision (rec : Rec) (cwd : String) (remote : Bool) : ScanItem → D
   | .unanalyzable text => ⟨.ask, "cmdsub: unanalyzable text: " ++ text⟩
 
 /-- `_analyze_string_cmdsubs`: each found text is analysed and wrapped `cmdsub: …` -/
-def scanDecisions (rec : Rec) (s : String) (cwd : String) (remote : Bool) : List Decision :=
-  (scanItems s).map (scanItemDecision rec cwd remote)
+def scanDecisions (rec : Rec) (ps : Bool) (s : String) (cwd : String) (remote : Bool) : List Decision :=
+  (scanItems ps s).map (scanItemDecision rec cwd remote)
 
 /-- non-allow decisions get a prefix, allow ones pass unchanged -/
 def wrapNonAllow (pfx : String) (d : Decision) : Decision :=
   if d.action ≠ .allow then ⟨d.action, pfx ++ d.reason⟩ else d
 
 /-- `arg and isinstance(arg, str)` then scan it -/
-def scanArg (rec : Rec) (arg : Option String) (cwd : String) (remote : Bool) : List Decision :=
+def scanArg (rec : Rec) (ps : Bool) (arg : Option String) (cwd : String) (remote : Bool) : List Decision :=
   match Py.truthy arg with
-  | some a => scanDecisions rec a cwd remote
+  | some a => scanDecisions rec ps a cwd remote
   | none => []
 
 /-- `_analyze_expansion_part` for the kinds that only carry raw text: `${name[sub] op arg}`,
     `${#name[sub]}`, `${!name[sub]…}`, `$(( … ))` (texts taken from the word's source), `$[ … ]` -/
 def expansionTexts (rec : Rec) (wd : Word) (p : Part) (cwd : String) (remote : Bool) : List Decision :=
   match p with
-  | .param name _ arg => scanArg rec (some name) cwd remote ++ scanArg rec arg cwd remote
-  | .paramLen name => scanArg rec (some name) cwd remote
-  | .paramIndirect name _ arg => scanArg rec (some name) cwd remote ++ scanArg rec arg cwd remote
-  | .arith _ => (arithTexts wd.value).flatMap fun t => scanDecisions rec t cwd remote
-  | .arithDeprecated expr => scanArg rec (some expr) cwd remote
+  | .param name _ arg => scanArg rec true (some name) cwd remote ++ scanArg rec true arg cwd remote
+  | .paramLen name => scanArg rec true (some name) cwd remote
+  | .paramIndirect name _ arg => scanArg rec true (some name) cwd remote ++ scanArg rec true arg cwd remote
+  | .arith _ => (arithTexts wd.value).flatMap fun t => scanDecisions rec false t cwd remote
+  | .arithDeprecated expr => scanArg rec false (some expr) cwd remote
   | _ => []
 
 def isOperator : Node → Bool
@@ -322,6 +322,10 @@ def injectionRisk (w : World) (ctx : CmdCtx) (wd : Word) (position : Nat) : List
     else []
   else []
 
+/-- when `_analyze_cond_operand` re-reads the operand's text: no parts, a single quote in it, or the right of `=~` -/
+def condRescan (v : String) (ps : List Part) (regex : Bool) : Bool :=
+  ps.isEmpty || regex || Py.hasChar v '\''
+
 section Walk
 variable (w : World) (rec : Rec) (h : HelpTables)
 
@@ -356,8 +360,8 @@ def aNode : Node → String → Bool → Decision
   | .forN _ ws b rs, cwd, remote =>
     combine ([aNode b cwd remote] ++ aWords ws cwd remote ++ aRedirects rs cwd remote)
   | .forArith i c s b rs, cwd, remote =>
-    combine ([aNode b cwd remote] ++ scanArg rec (some i) cwd remote
-      ++ scanArg rec (some c) cwd remote ++ scanArg rec (some s) cwd remote
+    combine ([aNode b cwd remote] ++ scanArg rec false (some i) cwd remote
+      ++ scanArg rec false (some c) cwd remote ++ scanArg rec false (some s) cwd remote
       ++ aRedirects rs cwd remote)
   | .selectN _ ws b rs, cwd, remote =>
     combine ([aNode b cwd remote] ++ aWords ws cwd remote ++ aRedirects rs cwd remote)
@@ -375,7 +379,7 @@ def aNode : Node → String → Bool → Decision
     if ds.isEmpty then ⟨.allow, "conditional"⟩ else combine ds
   | .arithCmd e raw rs, cwd, remote =>
     let ds := (match raw with
-      | some t => scanDecisions rec t cwd remote
+      | some t => scanDecisions rec false t cwd remote
       | none => aOptArith e cwd remote) ++ aRedirects rs cwd remote
     if ds.isEmpty then ⟨.allow, "arithmetic"⟩ else combine ds
   | .comment, _, _ => ⟨.allow, "comment"⟩
@@ -435,12 +439,11 @@ def aWordParts (wd : Word) : List Part → String → Bool → List Decision
 def aWord : Word → String → Bool → List Decision
   | .mk v ps, cwd, remote => aWordParts (.mk v ps) ps cwd remote
 
-/-- `_analyze_cond_operand`: the parts, or the raw text of an operand without parts -/
-def aCondOperand : Word → String → Bool → List Decision
+/-- `_analyze_cond_operand`: the parts and, where they are not the whole story, the raw text -/
+def aCondOperand (regex : Bool) : Word → String → Bool → List Decision
   | .mk v ps, cwd, remote =>
-    if !ps.isEmpty then aWordParts (.mk v ps) ps cwd remote
-    else if Py.hasChar v '\'' then []
-    else scanArg rec (some v) cwd remote
+    aWordParts (.mk v ps) ps cwd remote ++
+      (if condRescan v ps regex then scanArg rec true (some v) cwd remote else [])
 
 def aWords : List Word → String → Bool → List Decision
   | [], _, _ => []
@@ -456,7 +459,7 @@ def aRedirects : List Redir → String → Bool → List Decision
   | r :: rs, cwd, remote =>
     (match r with
      | .heredoc quoted content =>
-       if !quoted then scanArg rec (some content) cwd remote else []
+       if !quoted then scanArg rec false (some content) cwd remote else []
      | .redirect op tgt =>
        match tgt with
        | some t =>
@@ -469,12 +472,12 @@ def aRedirects : List Redir → String → Bool → List Decision
 def aCasePats : List CasePat → String → Bool → List Decision
   | [], _, _ => []
   | .mk pat body :: ps, cwd, remote =>
-    scanArg rec (some pat) cwd remote ++ aOptNode body cwd remote ++ aCasePats ps cwd remote
+    scanArg rec true (some pat) cwd remote ++ aOptNode body cwd remote ++ aCasePats ps cwd remote
 
 /-- `_analyze_cond_node` -/
 def aCond : Cond → String → Bool → List Decision
-  | .unary _ o, cwd, remote => aCondOperand o cwd remote
-  | .binary _ l r, cwd, remote => aCondOperand l cwd remote ++ aCondOperand r cwd remote
+  | .unary _ o, cwd, remote => aCondOperand false o cwd remote
+  | .binary op l r, cwd, remote => aCondOperand false l cwd remote ++ aCondOperand (op == "=~") r cwd remote
   | .and l r, cwd, remote => aCond l cwd remote ++ aCond r cwd remote
   | .or l r, cwd, remote => aCond l cwd remote ++ aCond r cwd remote
   | .not o, cwd, remote => aCond o cwd remote
